@@ -55,6 +55,13 @@ LINES = [
     "true false null",
     " ",
     "\u00a0nbsp\u2028ls\x0cff",
+    # lines that LOOK like a fence of the zone's own length or longer but are not one for the reader: indented by something other
+    # than spaces, or a backtick later on the line (valid_zone() decides with the independent fence scanner)
+    "\t```",
+    "\u00a0````",
+    "\x0c``````",
+    "```js` is the tag",
+    "  ```` then a ` later",
 ]
 
 
